@@ -42,6 +42,8 @@ type FK struct {
 	RefCols  []string `json:"ref_cols"`
 	OnUpdate string   `json:"on_update,omitempty"`
 	OnDelete string   `json:"on_delete,omitempty"`
+	// Short: the native DDL names no parent columns (REFERENCES p); only set when RefCols is the parent's primary key
+	Short bool `json:"short,omitempty"`
 }
 
 type Check struct {
@@ -202,7 +204,11 @@ func (t Table) DDL(style Style) []string {
 		}
 		if i, ok := inlineFK[c.Name]; ok {
 			fk := t.FKs[i]
-			d += " references " + q(style, fk.RefTable) + " (" + qs(style, fk.RefCols) + ")" + actions(fk)
+			if fk.Short && style == StyleNative {
+				d += " references " + q(style, fk.RefTable) + actions(fk)
+			} else {
+				d += " references " + q(style, fk.RefTable) + " (" + qs(style, fk.RefCols) + ")" + actions(fk)
+			}
 		}
 		if inlineCheckCol == c.Name {
 			d += " check (" + t.Checks[inlineCheck].Expr + ")"
@@ -234,7 +240,11 @@ func (t Table) DDL(style Style) []string {
 		if fk.Name != "" {
 			d = "CONSTRAINT " + q(style, fk.Name) + " "
 		}
-		d += "FOREIGN KEY (" + qs(style, fk.Cols) + ") REFERENCES " + q(style, fk.RefTable) + " (" + qs(style, fk.RefCols) + ")" + actions(fk)
+		if fk.Short && style == StyleNative {
+			d += "FOREIGN KEY (" + qs(style, fk.Cols) + ") REFERENCES " + q(style, fk.RefTable) + actions(fk)
+		} else {
+			d += "FOREIGN KEY (" + qs(style, fk.Cols) + ") REFERENCES " + q(style, fk.RefTable) + " (" + qs(style, fk.RefCols) + ")" + actions(fk)
+		}
 		defs = append(defs, d)
 	}
 	for i, c := range t.Checks {
@@ -313,6 +323,15 @@ func (ix Index) DDL(style Style, table string) string {
 func (s Schema) DDL(style Style) []string {
 	var out []string
 	for _, t := range s.Tables {
+		// the short form REFERENCES p is only the same foreign key while the parent's primary key equals RefCols
+		fks := append([]FK{}, t.FKs...)
+		for i := range fks {
+			if fks[i].Short {
+				p := s.Table(fks[i].RefTable)
+				fks[i].Short = p != nil && fks[i].Name == "" && strings.Join(p.PK, "\x00") == strings.Join(fks[i].RefCols, "\x00")
+			}
+		}
+		t.FKs = fks
 		out = append(out, t.DDL(style)...)
 	}
 	return out
